@@ -37,11 +37,17 @@ type c02Case struct {
 // endState checks that nothing is held anywhere and that the full limit is admitted again.
 func endState(x *mc.Exec, st *stack, key string) {
 	busy, lim := st.busy()
-	if busy != 0 {
-		x.Fail("leak/strategy-busy", "strategy busy=%d after every granted listener completed", busy)
-	}
-	if lim != max1(st.limit) {
-		x.Fail("limit-changed", "strategy limit=%d, expected %d", lim, st.limit)
+	if busy < 0 || lim < 0 {
+		// the pool's private strategy could not be located (layout changed): the counters are not
+		// observable, the re-admission epilogue below still is
+		x.OracleSkipped++
+	} else {
+		if busy != 0 {
+			x.Fail("leak/strategy-busy", "strategy busy=%d after every granted listener completed", busy)
+		}
+		if lim != max1(st.limit) {
+			x.Fail("limit-changed", "strategy limit=%d, expected %d", lim, st.limit)
+		}
 	}
 	switch s := st.strat.(type) {
 	case *strategy.LookupPartitionStrategy:
@@ -83,7 +89,7 @@ func endState(x *mc.Exec, st *stack, key string) {
 	ctx := ctxFor(key)
 	var toks []core.Listener
 	top := st.top
-	if st.family == "deadline" {
+	if st.family == "deadline" && st.def != nil {
 		top = st.def // the stack's fixed deadline may have passed by now: it then refuses by design
 	}
 	for i := 0; i < st.limit; i++ {
@@ -94,7 +100,7 @@ func endState(x *mc.Exec, st *stack, key string) {
 		}
 		toks = append(toks, l)
 	}
-	if len(toks) == st.limit {
+	if len(toks) == st.limit && st.def != nil {
 		if l, ok := st.def.Acquire(ctx); ok {
 			x.Fail("over-admit", "epilogue: acquire %d granted beyond the limit %d", st.limit+1, st.limit)
 			l.OnIgnore()
@@ -103,7 +109,7 @@ func endState(x *mc.Exec, st *stack, key string) {
 	for _, l := range toks {
 		l.OnIgnore()
 	}
-	if b, _ := st.busy(); b != 0 {
+	if b, _ := st.busy(); b > 0 {
 		x.Fail("leak/strategy-busy", "strategy busy=%d after the epilogue", b)
 	}
 }
